@@ -23,7 +23,7 @@ RULE = ("cases = (canonical signed composition matrix, mode[, duplicates]) enume
 ASSUMPTIONS = [
     "problems whose class TLC cannot decide inside its search boxes (free coordinates <= 12, "
     "certificate entries <= 3) are emitted but never judged (counted as skipped: undecided)",
-    "minimal coefficient sum is decided by exhaustive bounded search when it needs <= 20000 "
+    "minimal coefficient sum is decided by exhaustive bounded search when it needs <= 600 "
     "free-coordinate assignments, otherwise everything but minimality is judged (skipped: nomin)",
     "seeded problems whose Hadamard minor bound exceeds 32767 are not encoded (32-bit TLC integers)",
     "a refusal (ValueError) is admissible in modes True/False whenever the null space has dimension "
@@ -39,7 +39,7 @@ ACTIONS = {
 }
 # replay budget (problems x modes) per slice: None = everything
 QUICK_PER_SLICE = 1000
-THOROUGH_PER_SLICE = {"s3_q": 15000, "s3_t": 30000, "s4k3_t": 40000, "chg_t": 30000}
+THOROUGH_PER_SLICE = {"s3_q": 12000, "s3_t": 24000, "s4k3_t": 36000, "chg_t": 24000, "dupl_t": 6000}
 
 # atomic number standing for row k (the charge row is key 0)
 ROW_KEYS = [1, 6, 8, 7, 16, 17, 11, 19, 20, 26, 29, 30, 12, 13, 15, 9, 35, 53, 25, 24]
@@ -153,14 +153,40 @@ def project(result, reac, prod):
     return obs
 
 
+class _CallTimeout(BaseException):
+    pass
+
+
+def _alarm(signum, frame):
+    raise _CallTimeout()
+
+
+CALL_TIMEOUT_S = 60
+
+
+def _guarded(fn):
+    """run fn() under a wall-clock alarm: a call that neither returns nor raises within the limit is
+    not an observation (skipped and counted, never judged)"""
+    import signal
+    old = signal.signal(signal.SIGALRM, _alarm)
+    signal.setitimer(signal.ITIMER_REAL, CALL_TIMEOUT_S)
+    try:
+        return fn()
+    finally:
+        signal.setitimer(signal.ITIMER_REAL, 0)
+        signal.signal(signal.SIGALRM, old)
+
+
 def observe(inp):
     """call the real code on the abstract problem; never raises"""
     from chempy import balance_stoichiometry
     reac, prod, subst = build(inp)
     kw = {"allow_duplicates": True} if inp["dupl"] else {}
     try:
-        res = balance_stoichiometry(list(reac), list(prod), substances=subst,
-                                    underdetermined=MODES[inp["mode"]], **kw)
+        res = _guarded(lambda: balance_stoichiometry(list(reac), list(prod), substances=subst,
+                                                     underdetermined=MODES[inp["mode"]], **kw))
+    except _CallTimeout:
+        return {"k": "unencodable", "sig": "call-timeout"}
     except Exception as e:  # the class name is the observation
         n = len(reac) + len(prod)
         return {"k": "raise", "exc": type(e).__name__, "x": [[0, 1]] * n, "present": [False] * n,
@@ -257,6 +283,13 @@ def judge_batch(ctx, items):
             raise core.MachineryFailure("trace outside the model: %s at %d: %s" % (clause, pos, problem_text(inp)))
         if v == "accept":
             if c in ("undecided", "nomin"):
+                if direct is False:
+                    # the exhaustive case (complete admissible set) excludes the observation; the
+                    # trace-side search box was too small to confirm or refute it: the case stands
+                    ctx.violation(_key(inp, cls, "not-in-admissible-set", obs),
+                                  {"direction": direction, "case": {"in": inp}, "trace": tr, "observed": obs,
+                                   "verdict": {"verdict": v, "pos": pos, "clause": clause}, "tlc_cfg": cfg_name})
+                    continue
                 ctx.skip(c)
             if direct is False:
                 raise core.MachineryFailure("TLC accepts what the generated case excludes: %s mode=%s obs=%s"
@@ -309,7 +342,9 @@ def _formula_problem(item):
     inp = {"nr": len(reac), "np": len(prod), "nk": len(keys), "crow": crow, "scale": 1, "comp": comp,
            "mode": mode, "dupl": [], "formulas": [reac, prod]}
     try:
-        res = balance_stoichiometry(list(reac), list(prod), underdetermined=MODES[mode])
+        res = _guarded(lambda: balance_stoichiometry(list(reac), list(prod), underdetermined=MODES[mode]))
+    except _CallTimeout:
+        return inp, {"k": "unencodable", "sig": "call-timeout"}
     except Exception as e:
         n = len(reac) + len(prod)
         obs = {"k": "raise", "exc": type(e).__name__, "x": [[0, 1]] * n, "present": [False] * n,
@@ -397,7 +432,7 @@ def run(ctx):
             inp = case["in"]
             ctx.ran(matrix_id(inp), nontrivial=inp["nr"] + inp["np"] >= 3)
             if obs["k"] == "unencodable":
-                ctx.skip("unencodable-observation")
+                ctx.skip(obs.get("sig") if obs.get("sig") == "call-timeout" else "unencodable-observation")
                 continue
             d = direct_agrees(case["exp"], obs)
             if d is True:
@@ -418,7 +453,7 @@ def run(ctx):
     for inp, obs in zip(inps, outs):
         ctx.ran(matrix_id(inp))
         if obs["k"] == "unencodable":
-            ctx.skip("unencodable-observation")
+            ctx.skip(obs.get("sig") if obs.get("sig") == "call-timeout" else "unencodable-observation")
             continue
         batch.append((inp, obs, None, "code->spec", "BalanceTrace.cfg"))
 
